@@ -147,7 +147,10 @@ CLAIMS = {
     'C17': dict(
         text="c17_concat_value / c17_concat_rows: concatenate(t) evaluates to exactly one output, the list of all inner elements in "
              "domain order then inner order with multiplicity; c17_member / c17_not_member: in_/not_(in_) of another variable against "
-             "it select exactly the (non-)members, in domain order. Correspondence: the single value as a sequence, membership, "
+             "it select exactly the (non-)members, in domain order; c17_concat_value_frame: the single value is the same under every outer "
+             "binding that leaves the operand's variable unbound (term_dist_frame), c17_concat_value_bound: a bound node is not "
+             "aggregated again, c17_concat_after_var / c17_concat_before_var: selected next to another variable, in either order, one "
+             "row per object each carrying the same combined list. Correspondence: the single value as a sequence, membership, "
              "non-membership, contains spelling, combined with conditions on the outer variable, selected next to it; inner collections "
              "that are lists / tuples / scalars / empty, elements that are containers themselves, a parent domain without any parent, "
              "a parent restricted by a sub-query or by an earlier conjunct (set level).",
